@@ -849,9 +849,12 @@ fn generate_right_ctx_state_arm(
         return quote!(return true);
     }
 
-    let eof = match end_of_input_transition {
-        Some(StateIdx(eof_next)) => quote!(state = #eof_next),
-        None => quote!(return false),
+    // No characters can follow the end-of-input, so after an end-of-input transition only
+    // end-of-input transitions can be taken: the result is known here
+    let eof = if accepts_at_end_of_input(states, *end_of_input_transition) {
+        quote!(return true)
+    } else {
+        quote!(return false)
     };
 
     let def = match any_transition {
@@ -873,6 +876,28 @@ fn generate_right_ctx_state_arm(
 }
 
 // NB. Does not add default case
+/// Whether an accepting state can be reached from `state` with only end-of-input transitions.
+fn accepts_at_end_of_input(
+    states: &[State<StateIdx, ()>],
+    mut state: Option<StateIdx>,
+) -> bool {
+    let mut visited: Set<StateIdx> = Default::default();
+
+    while let Some(state_idx) = state {
+        if !visited.insert(state_idx) {
+            break;
+        }
+
+        if !states[state_idx.0].accepting.is_empty() {
+            return true;
+        }
+
+        state = states[state_idx.0].end_of_input_transition;
+    }
+
+    false
+}
+
 fn generate_right_ctx_state_char_arms(
     ctx: &mut CgCtx,
     states: &[State<StateIdx, ()>],
